@@ -135,7 +135,7 @@ def c_text_vs_real(rep, exe, cs, n):
         off, fmt, fid, var = int(t[2]), t[3], int(t[4]), int(t[5])
         pl = bytes.fromhex(t[6]) if t[6] != "-" else b""
         fn = "Avtp_Can_CreateAcfMessage" if fmt == "Can" else "Avtp_CanBrief_SetPayload"
-        mc.append((fn, [65536 + off, fid, 1048576, len(pl), var], list(buf), list(pl)))
+        mc.append((fn, [65536 + off, fid, 1048576, len(pl), var], list(buf), list(pl), "src/avtp/acf/Can.c" if fmt == "Can" else "src/avtp/acf/CanBrief.c"))
     res = cirrun.mem_cases(mc, "cirrun_can")
     sub = common.Cases()
     for i in idx:
